@@ -38,10 +38,11 @@ def _script_from_states(states, rnd, src):
     steps = []
     for st in states[1:]:
         a = st["act"]
-        steps.append((str(a["name"]), int(a["t"]), int(a["u"]), bool(a["last"]), int(st["clock"])))
+        # 4th component: WireEnd - last call for this request; Exit - the block is left by an exception
+        steps.append((str(a["name"]), int(a["t"]), int(a["u"]), bool(a["raised"] if a["name"] == "Exit" else a["last"]), int(st["clock"])))
     if not steps:
         return None
-    steps = R.complete(roots, steps, rnd)
+    steps = R.complete(roots, steps, rnd, p_raise=0.3)
     return {"kind": "script", "src": src, "roots": roots, "steps": [list(s) for s in steps]}
 
 
@@ -106,6 +107,11 @@ def _features(tr, feats):
         feats["concurrent-children"] = feats.get("concurrent-children", 0) + 1
     if any(e["a"] == "Sample" and len(e["deps"]) >= 2 for e in ev):
         feats["composite-with-sub-requests"] = feats.get("composite-with-sub-requests", 0) + 1
+    if any(e["a"] == "Exit" and e["raised"] for e in ev):
+        feats["exit-by-exception"] = feats.get("exit-by-exception", 0) + 1
+    # a failed wire request whose end is the latest of its enclosing request: WireEnd, Exit(raised) ... and nothing later
+    if any(e["a"] == "Sample" and not e["ok"] for e in ev):
+        feats["composite-with-failed-sub-request"] = feats.get("composite-with-failed-sub-request", 0) + 1
 
 
 def _extra_tuples(text, heads):
@@ -145,6 +151,37 @@ def _kinds(details):
     return sorted(kinds)
 
 
+def _abandoned_stats(tr, stats):
+    """A stream failed while sibling streams were in flight: Composite cancels them without awaiting them, the request
+    context is left and the sample is taken while they still run.  Outside the usage discipline of the specification; what
+    the sample says is measured here and reported as a note."""
+    ev = tr["ev"]
+    for pos in tr["abandoned"]:
+        stats["requests"] = stats.get("requests", 0) + 1
+        ex = ev[pos - 1]
+        # the matching Enter of the top-level context that was left at event `pos`
+        n = 0
+        cnt = 0
+        start = None
+        for i, e in enumerate(ev[:pos]):
+            if e["a"] == "Enter":
+                cnt += 1
+                if e["par"] == 0 and e["t"] == ex["t"]:
+                    n, start = cnt, i
+        root = {r: r for r in tr["roots"]}
+        issued = []
+        for e in ev[:pos]:
+            if e["a"] == "Spawn":
+                root[e["u"]] = root[e["t"]]
+        for e in ev[start:pos]:
+            if e["a"] == "WireStart" and root.get(e["t"]) == ex["t"]:
+                issued.append(e["tau"])
+        smp = [e for e in ev if e["a"] == "Sample" and e["n"] == n]
+        if smp and issued and smp[0]["rs"] > min(issued):
+            stats["sample_start_later_than_earliest_issued_request"] = stats.get("sample_start_later_than_earliest_issued_request", 0) + 1
+            stats.setdefault("example", {"sample_request_start": smp[0]["rs"], "earliest_wire_request_start": min(issued), "sample_service_time": smp[0]["st"]})
+
+
 def run_cases(cases, out, label, feats=None, chunk=400):
     """Executes the cases on the real code, validates the recordings with TLC; returns the traces."""
     traces = []
@@ -154,6 +191,13 @@ def run_cases(cases, out, label, feats=None, chunk=400):
         tid = "%s-%d" % (label, ci)
         crash = tr.pop("crash")
         tr["id"] = tid
+        if tr["abandoned"]:
+            # not an execution of the specified usage discipline (children awaited before the block is left): measured, not judged
+            _abandoned_stats(tr, out.extra.setdefault("failed_stream_with_siblings_in_flight", {}))
+            traces.append(None)
+            out.add_case({k: v for k, v in case.items() if k != "src"}, nontrivial=True)
+            continue
+        tr.pop("abandoned")
         traces.append(tr)
         index[tid] = (case, tr)
         if crash:
@@ -165,10 +209,13 @@ def run_cases(cases, out, label, feats=None, chunk=400):
         nctx = sum(1 for e in tr["ev"] if e["a"] == "Enter")
         norm = {k: v for k, v in case.items() if k != "src"}
         out.add_case(norm, nontrivial=nwire >= 2 and nctx >= 2)
-    if not traces:
+    valid = [t for t in traces if t is not None]
+    if len(valid) < len(traces):
+        out.note("%s: %d of %d cases not judged (a stream failed while sibling streams were in flight)" % (label, len(traces) - len(valid), len(traces)))
+    if not valid:
         raise tlc.MachineryError("no traces produced for %s" % label)
-    for c0 in range(0, len(traces), chunk):
-        part = traces[c0 : c0 + chunk]
+    for c0 in range(0, len(valid), chunk):
+        part = valid[c0 : c0 + chunk]
         verdicts = tracecheck.validate("ReqContext", "TraceReqContext", "TraceReqContext.cfg", part, name="c18trace", timeout=900)
         out.states += verdicts.n_events
         out.transitions += verdicts.n_events
@@ -276,18 +323,26 @@ def run(ctx, out):
     comps = [c for c in comps if not (R.dumps(c["clients"]) in seen or seen.add(R.dumps(c["clients"])))]
     out.note("leg S2C: %d composite cases projected from the TLC behaviours" % len(comps))
     ctraces = run_cases(comps, out, "simc", feats)
-    k = max(range(len(comps)), key=lambda i: len(ctraces[i]["ev"]))
+    k = max(range(len(comps)), key=lambda i: len(ctraces[i]["ev"]) if ctraces[i] else 0)
     out.sample({"source": "tlc-simulate -> composite", "clients": comps[k]["clients"], "recorded_samples": [e for e in ctraces[k]["ev"] if e["a"] == "Sample"][:4]})
     # ---- Leg C2S: cases not derived from TLC
     rs = [dict(R.random_script(random.Random(ctx.seed * 1000 + i)), src="random") for i in range(300 if quick else 4000)]
     run_cases(rs, out, "rnd", feats)
     rc = [dict(R.random_composite(random.Random(ctx.seed * 1000 + 500000 + i)), src="random") for i in range(250 if quick else 3000)]
     rtraces = run_cases(rc, out, "rndc", feats)
-    out.sample({"source": "random composite", "clients": rc[0]["clients"], "recorded_samples": [e for e in rtraces[0]["ev"] if e["a"] == "Sample"][:3]})
+    k = next(i for i in range(len(rc)) if rtraces[i])
+    out.sample({"source": "random composite", "clients": rc[k]["clients"], "recorded_samples": [e for e in rtraces[k]["ev"] if e["a"] == "Sample"][:3]})
+    ab = out.extra.get("failed_stream_with_siblings_in_flight")
+    if ab:
+        out.note(
+            "not judged (outside the usage discipline): %d composite requests in which a stream failed while sibling streams were in flight (cancelled, not awaited); "
+            "in %d of them the sample's request_start is later than the earliest wire request issued for the request"
+            % (ab.get("requests", 0), ab.get("sample_start_later_than_earliest_issued_request", 0))
+        )
     out.extra["features_exercised"] = feats
-    for need in ACTIONS + ["Sample", "chunked-end", "several-clients", "nested", "concurrent-children", "composite-with-sub-requests"]:
+    for need in ACTIONS + ["Sample", "chunked-end", "several-clients", "nested", "concurrent-children", "composite-with-sub-requests", "exit-by-exception", "composite-with-failed-sub-request"]:
         if not feats.get(need):
-            if out.extra.get("executions_that_raised") and need in ("Sample", "composite-with-sub-requests"):
+            if out.extra.get("executions_that_raised") and need in ("Sample", "composite-with-sub-requests", "composite-with-failed-sub-request"):
                 continue  # no sample reaches the sampler when the executor raises; reported as drift above
             out.vacuous.append(need)
     out.note("leg C2S: %d executions validated by TLC; features %s" % (out.traces_validated, feats))
@@ -298,11 +353,14 @@ def replay(ctx, case):
 
     out = Outcome(ctx.pid)
     traces = run_cases([case], out, "replay")
+    if traces[0] is None:
+        print("a stream failed while sibling streams were in flight: outside the usage discipline, not judged: %s" % out.extra)
+        return 0
     for e in traces[0]["ev"]:
         if e["a"] == "Sample":
             print("  sample of task %d: context %d request_start=%s service_time=%s dependent=%s" % (e["t"], e["n"], e["rs"], e["st"], e["deps"]))
         else:
-            print("  %-9s task %d%s at %d: var -> %s, changed dicts %s" % (e["a"], e["t"], (" / %d" % e["u"]) if e["u"] else "", e["tau"], e["cur"], e["d"]))
+            print("  %-9s task %d%s at %d%s: var -> %s, changed dicts %s" % (e["a"], e["t"], (" / %d" % e["u"]) if e["u"] else "", e["tau"], " (exception)" if e["raised"] else "", e["cur"], e["d"]))
     for v in out.violations:
         print("VIOLATION property=C18 clause=%s %s signature=%s" % (v.clause, v.detail, v.signature))
     for d in out.drift:
